@@ -340,6 +340,7 @@ pub fn run_framed(a: &Args) {
     server_speaks_first(t, &mut out);
     slow_consumer(t, &mut out);
     long_send_then_other_connection(t, &mut out);
+    blocked_send_with_new_connection(t, &mut out);
     out.finish();
 }
 
@@ -463,6 +464,8 @@ pub fn run_tcp(a: &Args) {
     server_speaks_first(t, &mut out);
     slow_consumer(t, &mut out);
     long_send_then_other_connection(t, &mut out);
+    tcp_burst_before_listener_call(&mut out);
+    blocked_send_with_new_connection(t, &mut out);
     out.finish();
 }
 
@@ -706,6 +709,88 @@ pub fn long_send_then_other_connection(t: Transport, out: &mut Out) {
     out.case(&format!("longsend-other {:?}", t), &format!("{} {}", ok, okb));
     drop(p); drop(c);
     if node.shutdown() { out.violation("[C17] event processing panicked or wedged"); }
+}
+
+
+/// a send() from a user thread is blocked by a peer that does not read yet; MEANWHILE a new peer connects
+/// to the same node and sends a short message: it is delivered while the send is still blocked
+pub fn blocked_send_with_new_connection(t: Transport, out: &mut Out) {
+    mark_scenario(out, &format!("{:?}: while an 8 MiB send is blocked by a peer that reads 1.5 s later, a NEW peer connects to the node and sends a short message", t));
+    let node = Net::new();
+    let (_lid, addr) = node.ctl.listen(t, "127.0.0.1:0").unwrap();
+    let l = TcpListener::bind("127.0.0.1:0").unwrap();
+    let (ep, _) = node.ctl.connect(t, l.local_addr().unwrap()).unwrap();
+    let (mut p, _) = l.accept().unwrap();
+    node.wait(3000, |ev| ev.iter().any(|e| matches!(e, Ev::Connected(e2, true) if *e2 == ep)));
+    let big = payload(89, 8 << 20);
+    let wire_len = big.len() + if t == Transport::FramedTcp { leb128(big.len() as u64).len() } else { 0 };
+    let t_send = Instant::now();
+    let sender = { let (ctl, big) = (node.ctl.clone(), big.clone()); std::thread::spawn(move || { let st = ctl.send(ep, &big); (st, Instant::now()) }) };
+    std::thread::sleep(Duration::from_millis(250));
+    let mut c = TcpStream::connect(addr).unwrap();
+    let me = c.local_addr().unwrap();
+    let hello: Vec<u8> = if t == Transport::FramedTcp { let mut v = vec![12u8]; v.extend(b"are you here"); v } else { b"are you here".to_vec() };
+    let t_hello = Instant::now();
+    c.write_all(&hello).unwrap();
+    let ok = node.wait(250, |ev| ev.iter().any(|e| matches!(e, Ev::Message(e2, d) if e2.addr() == me && d == b"are you here")));
+    let waited = t_hello.elapsed();
+    // the late reader starts reading 1.5 s after the send began
+    let rest = Duration::from_millis(1500).saturating_sub(t_send.elapsed());
+    std::thread::sleep(rest);
+    let mut got = vec![0u8; 1 << 16];
+    p.set_read_timeout(Some(Duration::from_secs(10))).unwrap();
+    let mut n = 0; while n < wire_len { match p.read(&mut got) { Ok(0) | Err(_) => break, Ok(k) => n += k } }
+    let (st, t_done) = sender.join().unwrap();
+    let blocked_long_enough = t_done.duration_since(t_send) > Duration::from_millis(1400);
+    if !ok && blocked_long_enough {
+        let later = node.wait(3000, |ev| ev.iter().any(|e| matches!(e, Ev::Message(e2, d) if e2.addr() == me && d == b"are you here")));
+        out.violation(&format!("[C11,C01,C17] {:?}: a user thread is blocked in send() of 8 MiB (the peer starts reading 1.5 s later); 250 ms into it a NEW peer connected to the node's listener and sent 12 bytes: not delivered after {} ms (delivered once the blocked send had finished: {}); bytes sent on one connection must arrive within bounded time whatever another connection's reader does", t, waited.as_millis(), later));
+    }
+    if st != SendStatus::Sent || n != wire_len { out.violation(&format!("[C11,C01] {:?}: the 8 MiB send to a late reader answered {:?}; the peer received {} of {} bytes", t, st, n, wire_len)); }
+    out.count("blocked_send_with_new_connection");
+    out.case(&format!("blockedsend-newconn {:?}", t), &format!("{}", ok || !blocked_long_enough));
+    drop(p); drop(c);
+    if node.shutdown() { out.violation("[C17] event processing panicked or wedged"); }
+}
+
+/// a Tcp peer writes 300000 bytes between node::split() and the listener call: the replayed Message
+/// chunks are non-empty, at most the documented input buffer size, and concatenate to what was written
+pub fn tcp_burst_before_listener_call(out: &mut Out) {
+    use message_io::node::{self, NodeEvent};
+    for enq in [false, true] {
+        mark_scenario(out, &format!("Tcp: 300000 bytes arrive between node::split() and {}", if enq { "enqueue()" } else { "for_each_async()" }));
+        let (handler, listener) = node::split::<()>();
+        let (_lid, addr) = handler.network().listen(Transport::Tcp, "127.0.0.1:0").unwrap();
+        let mut c = TcpStream::connect(addr).unwrap();
+        let data = payload(90, 300_000);
+        c.write_all(&data).unwrap();
+        std::thread::sleep(Duration::from_millis(200));
+        let chunks: Arc<Mutex<Vec<Vec<u8>>>> = Arc::new(Mutex::new(vec![]));
+        let total = |ch: &Arc<Mutex<Vec<Vec<u8>>>>| ch.lock().unwrap().iter().map(|c| c.len()).sum::<usize>();
+        let end = Instant::now() + Duration::from_secs(4);
+        if enq {
+            let (mut task, mut receiver) = listener.enqueue();
+            while total(&chunks) < data.len() && Instant::now() < end {
+                if let Some(node::StoredNodeEvent::Network(node::StoredNetEvent::Message(_, d))) = receiver.receive_timeout(Duration::from_millis(20)) { chunks.lock().unwrap().push(d); }
+            }
+            handler.stop();
+            task.wait();
+        } else {
+            let ch = chunks.clone();
+            let mut task = listener.for_each_async(move |ev| if let NodeEvent::Network(NetEvent::Message(_, d)) = ev { ch.lock().unwrap().push(d.to_vec()); });
+            while total(&chunks) < data.len() && Instant::now() < end { std::thread::sleep(Duration::from_millis(5)); }
+            handler.stop();
+            task.wait();
+        }
+        let _ = message_io::verif::take();
+        let ch = chunks.lock().unwrap().clone();
+        let sizes: Vec<usize> = ch.iter().map(|c| c.len()).collect();
+        if ch.concat() != data || sizes.iter().any(|l| *l == 0 || *l > 65535) {
+            out.violation(&format!("[C11,C15] a Tcp peer wrote 300000 bytes between node::split() and {}: Message chunk sizes {:?} (each must be 1..=65535, the documented input buffer size); concatenation equals what was written: {}", if enq { "enqueue()" } else { "for_each_async()" }, &sizes[..sizes.len().min(12)], ch.concat() == data));
+        }
+        out.count("tcp_burst_before_listener_call");
+        drop(c);
+    }
 }
 
 /// the peer sends its greeting right after accepting and then stays silent, and the connecting
@@ -1061,6 +1146,30 @@ pub fn run_udp(a: &Args) {
             }
             if na.shutdown() { out.violation("[C17,C12] event processing panicked"); }
         } else { out.count("udp_ipv6_link_local_not_available"); }
+    }
+    // C14: resources created from several threads at once (connect + remove in a loop) all get different ids,
+    // and each thread can remove exactly what it has just created
+    {
+        mark_scenario(&out, "Udp: 8 threads connect and remove in a loop on one node; ids handed out must all differ");
+        let node = Net::new();
+        let sink = UdpSocket::bind("127.0.0.1:0").unwrap();
+        let to = sink.local_addr().unwrap();
+        let per = if a.thorough { 20_000 } else { 2_500 };
+        let hs: Vec<_> = (0..8).map(|_| { let ctl = node.ctl.clone(); std::thread::spawn(move || {
+            let mut ids = Vec::with_capacity(per); let mut not_mine = 0u64;
+            for _ in 0..per { if let Ok((ep, _)) = ctl.connect(Transport::Udp, to) { ids.push(ep.resource_id().raw()); if !ctl.remove(ep.resource_id()) { not_mine += 1; } } }
+            (ids, not_mine)
+        }) }).collect();
+        let mut all: Vec<usize> = vec![]; let mut not_mine = 0u64;
+        for h in hs { if let Ok((ids, n)) = h.join() { all.extend(ids); not_mine += n; } }
+        let total = all.len();
+        all.sort_unstable();
+        let dups: Vec<usize> = all.windows(2).filter(|w| w[0] == w[1]).map(|w| w[0]).collect();
+        if !dups.is_empty() || not_mine > 0 {
+            out.violation(&format!("[C14] 8 threads each connected (Udp) and removed {} resources on one node: {} of the {} ids were handed out twice (e.g. raw id {:?}), and remove() of a resource a thread had just created answered false {} times", per, dups.len(), total, dups.first(), not_mine));
+        }
+        out.add("concurrent_connect_ids", total as u64);
+        if node.shutdown() { out.violation("[C17,C12] event processing panicked"); }
     }
     out.finish();
 }
